@@ -16,7 +16,7 @@ Scratch state lives under /tmp/seed (outside /repo and /verif) and is removed by
 """
 import json, os, re, shutil, subprocess, sys, time
 
-SEED = "/tmp/seed"
+SEED = os.environ.get("SEED_DIR", "/tmp/seed")
 REPO = f"{SEED}/repo"
 VCOPY = f"{SEED}/verif"
 ENV = dict(os.environ, CARGO_NET_OFFLINE="true", VERIF_JOBS=os.environ.get("VERIF_JOBS", "8"))
